@@ -214,7 +214,7 @@ func digest(parts ...any) uint64 {
 	return h.Sum64()
 }
 
-const c16NOps = 63
+const c16NOps = 64
 
 func c16Do(op int, st *c16Own, sh *c16Shared, r *gen.Rng) (name string, d uint64, deterministic bool) {
 	ei := r.Intn(len(sh.elems))
@@ -509,6 +509,25 @@ func c16Do(op int, st *c16Own, sh *c16Shared, r *gen.Rng) (name string, d uint64
 		sub := secp256k1.NewElement().Subtract(E).Negate()
 
 		return fmt.Sprintf("NewElement().Add(e%d) chained", ei), digest(acc.Encode(), sub.Encode()), true
+	case 63:
+		// the exported isogeny on the abscissa at which its denominators vanish (the result is the identity), and on an
+		// exceptional SSWU output; what it returns is the caller's own element and is worked on in place; the package's
+		// constants are read afterwards
+		in := secp256k1.NewElement()
+		xk := oracle.FMul(oracle.FNeg(oracle.K[1][1]), oracle.FInv0(big.NewInt(2)))
+		secp256k1.VSetRaw(in, oracle.ToMont(xk, oracle.P), oracle.ToMont(big.NewInt(3), oracle.P), oracle.ToMont(big.NewInt(1), oracle.P))
+		q := secp256k1.IsogenySecp256k13iso(in)
+		wasID := q.IsIdentity()
+		q.Add(E).Double()
+
+		z := secp256k1.IsogenySecp256k13iso(secp256k1.SSWU(mon.FE(new(big.Int))))
+		z.Subtract(E)
+
+		if why := mon.ConstantsIntact(); why != "" {
+			return "TRUTH-VIOLATED: after a caller worked in place on the element the exported isogeny returned, " + why, 1, true
+		}
+
+		return fmt.Sprintf("IsogenySecp256k13iso(kernel abscissa) then Add(e%d)", ei), digest(wasID, q.Encode(), z.Encode()), true
 	default:
 		if !bytes.Equal(secp256k1.HashToGroup(sh.probeMsg, sh.probeDst).Encode(), sh.truthH2G) ||
 			!bytes.Equal(secp256k1.Base().Multiply(sh.scalars[3]).Encode(), sh.truthNegG) {
